@@ -25,7 +25,9 @@ RULE = ("case = (call kind, input, fault point). Call kinds: read(str path), rea
         "under the open()/io.open() tracker measures N = number of low-level operations (read/readline/readlines/"
         "next/seek/tell/write/writelines/flush over all files opened during the call, helper opens for BOM / chardet / "
         "ad-hoc sniffing included) and M = number of open() calls; then EVERY k in 1..N is run with OSError injected "
-        "at the k-th operation and every j in 1..M with OSError injected at the j-th open(). Oracle: with the raised "
+        "at the k-th operation and every j in 1..M with OSError injected at the j-th open(). Two-call histories: the call "
+        "(clean, failing by itself, at k in {1, N/2, N} and at every open) followed by write()/to_csv() of the SAME "
+        "LASFile to a StringIO of the caller's, which must stay open. Oracle: with the raised "
         "exception (and its frames) still alive and without gc, every file object lasio opened has closed == True, "
         "caller-supplied objects are still open, no attribute of the LASFile is an open file. Non-trivial: a fault "
         "was injected and reached, or the input makes lasio raise by itself.")
